@@ -222,11 +222,11 @@ class C11(Property):
         for i in range(n):
             if i % 10 == 3:
                 # an update that is refused after part of it was merged: the ontology goes on being used
-                yield {'onts': gen_partial_refusal(rng), 'order': [0, 1], 'paths': [rng.choice(['object', 'xml'])]}
+                yield {'onts': gen_partial_refusal(rng), 'order': [0, 1], 'paths': [rng.choice(['object', 'xml', 'collection'])]}
                 continue
             if i % 5 == 4:
                 # successive valid upgrades, applied in the order they were made
-                yield {'onts': gen_upgrade_chain(rng), 'order': [0, 1, 2], 'paths': [rng.choice(['object', 'xml']) for _ in range(2)]}
+                yield {'onts': gen_upgrade_chain(rng), 'order': [0, 1, 2], 'paths': [rng.choice(['object', 'xml', 'collection']) for _ in range(2)]}
                 continue
             fam, chain = gen_family(rng)
             if i % 6 == 1:
@@ -243,7 +243,7 @@ class C11(Property):
             order = rng.sample([0, 1, 2], rng.choice([2, 3]))
             if chain and rng.random() < 0.7:
                 order = [0, 1, 2]      # successive upgrades, applied in the order they were made
-            yield {'onts': fam, 'order': order, 'paths': [rng.choice(['object', 'xml']) for _ in order[1:]]}
+            yield {'onts': fam, 'order': order, 'paths': [rng.choice(['object', 'xml', 'collection']) for _ in order[1:]]}
 
     def run(self, onts, order, paths):
         from edxml.error import EDXMLOntologyValidationError
@@ -261,7 +261,7 @@ class C11(Property):
                 if ea is not None and eb is not None and isinstance(apply_op('eq', ea, eb), str):
                     incompatible = True
             try:
-                A.update(B if p == 'object' else as_element(B))
+                self.apply(A, B, p)
                 if incompatible:
                     return {'err': None, 'silently_accepted': True}, None, None
             except EDXMLOntologyValidationError:
@@ -273,6 +273,23 @@ class C11(Property):
             versions.append(self.versions(A))
         return {'ok': view(A), 'untouched': untouched,
                 'monotone': all(a.get(k, 0) <= b.get(k, 0) for a, b in zip(versions, versions[1:]) for k in a)}, A, B
+
+    _holders = {}
+
+    def apply(self, A, B, path):
+        """A.update(B) through one of the public doors: the Ontology object, its XML element, or an event collection that holds A
+        and is extended with a collection that holds B (the same holder every time for one A)."""
+        if path == 'object':
+            A.update(B)
+        elif path == 'xml':
+            A.update(as_element(B))
+        else:
+            import edxml
+            if id(A) not in self._holders or self._holders[id(A)][0] is not A:
+                if len(self._holders) > 200:
+                    self._holders.clear()
+                self._holders[id(A)] = (A, edxml.EventCollection([], A))
+            self._holders[id(A)][1].extend(edxml.EventCollection([], B))
 
     def versions(self, o):
         out = {}
@@ -308,13 +325,13 @@ class C11(Property):
             res['older_ignored'] = 'raised:' + type(ex).__name__
         # what an update brought in comes back when it is deleted from A and A is updated again from the very same B
         try:
-            A.update(B)
+            self.apply(A, B, case['paths'][-1])
             slot = 'et' if B.get_event_type('t') is not None else 'source' if B.get_event_source('/a/') is not None else None
             if slot == 'et':
                 A.delete_event_type('t')
             elif slot == 'source':
                 A.delete_event_source('/a/')
-            A.update(B)
+            self.apply(A, B, case['paths'][-1])
             # A lacked the element, so it must now hold B's definition of it
             res['restored'] = slot is None or (element_of(A, slot) is not None and
                                                canon(element_of(A, slot).generate_xml()) == canon(element_of(B, slot).generate_xml()))
@@ -480,7 +497,7 @@ class C11(Property):
         return None
 
     def neighbours(self, case, rng):
-        return [{'onts': case['onts'], 'order': rng.sample([0, 1, 2], 2), 'paths': [rng.choice(['object', 'xml'])]}
+        return [{'onts': case['onts'], 'order': rng.sample([0, 1, 2], 2), 'paths': [rng.choice(['object', 'xml', 'collection'])]}
                 for _ in range(6)]
 
     def reductions(self, case):
